@@ -619,6 +619,88 @@ def execute(item):
 
 
 # ----------------------------------------------------------------------------------------------------------------
+# A4: histories of saves into re-used locations (specs/SchemaFiles.tla)
+# ----------------------------------------------------------------------------------------------------------------
+HIST_VARIANTS = {"libM": ("score_2.0.0", True), "libU": ("score_2.0.0", False), "std": ("8.3.0", True),
+                 "oldM": ("testlib_3.0.0", True), "oldU": ("testlib_3.0.0", False)}
+
+
+def _hist_variant(name):
+    key = "hv:" + name
+    if key not in _G:
+        from hed.schema import load_schema
+        version, merged = HIST_VARIANTS[name]
+        sch = load_schema(dict(facts.bundled())[version])
+        dfs = sch.get_as_dataframes(save_merged=merged)
+        _G[key] = (sch, merged, dfs)
+    return _G[key]
+
+
+def variant_rows():
+    """the tables that have rows, per variant, from the real writer (checked against Rows of the specification)"""
+    return {name: sorted(k for k, df in _hist_variant(name)[2].items() if not df.empty) for name in HIST_VARIANTS}
+
+
+def history_case(arg):
+    """replay one history of saves TLC emitted; then load every (location, format) the specification lists and compare"""
+    idx, case, work = arg
+    from hed.schema import load_schema
+    from hed.schema.schema_io import df_util
+    root = os.path.join(work, "h%d_%d" % (idx, os.getpid()))
+    os.makedirs(root, exist_ok=True)
+    prob = []
+
+    def place(loc, fmt):
+        if fmt == "tsv":
+            return os.path.join(root, "tsvdir") if loc == "folder" else os.path.join(root, "other", "name.tsv")
+        base = os.path.join(root, "one") if loc == "folder" else os.path.join(root, "other", "name")
+        return base + "." + fmt
+    try:
+        said = " ; ".join("%s %s -> %s" % (v, f, l) for l, f, v in case["hist"])
+        for loc, fmt, var in case["hist"]:
+            sch, merged, _ = _hist_variant(var)
+            pth = place(loc, fmt)
+            os.makedirs(os.path.dirname(pth), exist_ok=True)
+            try:
+                if fmt == "tsv":
+                    sch.save_as_dataframes(pth, save_merged=merged)
+                elif fmt == "xml":
+                    sch.save_as_xml(pth, save_merged=merged)
+                else:
+                    sch.save_as_mediawiki(pth, save_merged=merged)
+            except Exception as ex:  # noqa
+                prob.append(("history:%s:raises-save:%s" % (fmt, _exc_key(ex)), "history [%s]: saving %s raised %s" % (said, var, _exc(ex))))
+                return idx, prob
+        for e in case["expect"]:
+            sch, merged, dfs = _hist_variant(e["variant"])
+            pth = place(e["loc"], e["fmt"])
+            what = "history [%s]: loading the %s %s location" % (said, e["loc"], e["fmt"])
+            try:
+                r = load_schema(pth)
+            except Exception as ex:  # noqa
+                prob.append(("history:%s:raises-load:%s" % (e["fmt"], _exc_key(ex)), "%s raised %s" % (what, _exc(ex))))
+                continue
+            if not (r == sch):
+                k, text = diagnose(sch, r)
+                prob.append(("history:%s:%s:neq" % (e["fmt"], k), "%s does not give the schema saved last (%s): %s" % (what, e["variant"], text)))
+            if e["fmt"] == "tsv":       # table by table: whose rows the location holds, as the specification says
+                got = df_util.load_dataframes(pth)
+                for t, owner in e["tables"]:
+                    g = got[t]
+                    if owner == "blank":
+                        if not g.empty:
+                            prob.append(("history:tsv:stale-table:%s" % t, "%s: table %s must be blank but has %d rows" % (what, t, len(g))))
+                    else:
+                        w = _hist_variant(owner)[2][t]
+                        if len(g) != len(w) or list(g.iloc[:, 0]) != list(w.iloc[:, 0].astype(str)):
+                            prob.append(("history:tsv:wrong-table:%s" % t, "%s: table %s does not hold the rows of %s (%d rows, expected %d)"
+                                         % (what, t, owner, len(g), len(w))))
+        return idx, prob
+    finally:
+        shutil.rmtree(root, ignore_errors=True)
+
+
+# ----------------------------------------------------------------------------------------------------------------
 def _init_globals():
     if _G:
         return
@@ -687,22 +769,24 @@ def _select(cases, n, seed):
     first = [c for c in cases if len(c["edits"]) <= 1]
     rest = [c for c in cases if len(c["edits"]) > 1]
     groups = {}
-    for c in rest:
-        groups.setdefault(tuple(e[0] for e in c["edits"][-2:]), []).append(c)
+    for c in rest:      # AddUnit is told apart by the unit class it adds to (a partner class, the library's own class)
+        groups.setdefault(tuple(e[0] + (":" + e[1] if e[0] == "AddUnit" else "") for e in c["edits"][-2:]), []).append(c)
     for g in groups.values():
         rng.shuffle(g)
     out = list(first)
     keys = sorted(groups)
-    while len(out) < n and any(groups.values()):
+    rnd = 0
+    while any(groups.values()) and (len(out) < n or rnd == 0):     # every pair of edit kinds is represented at least once
         for k in keys:
-            if groups[k] and len(out) < n:
+            if groups[k] and (len(out) < n or rnd == 0):
                 out.append(groups[k].pop())
-    return out[:max(n, len(first))] if n >= len(first) else first[:n]
+        rnd += 1
+    return out
 
 
 def run(ctx):
     quick = ctx.quick
-    ctx.rule = ("cases = (1) every bundled schema x format x merged/unmerged; (2) abstract schemas reachable in SchemaStore.tla by "
+    ctx.rule = ("cases = (0) histories of <= 3 saves into re-used locations (SchemaFiles.tla); (1) every bundled schema x format x merged/unmerged; (2) abstract schemas reachable in SchemaStore.tla by "
                 "edit sequences (AddNode, AddRooted, RemoveLeaf, SetAttr, SetDesc, AddValueChild, AddUnitClass, AddUnit, AddValueClass, "
                 "Merge), each rendered as a library schema with seeded description strings and saved/reloaded in 3 formats x "
                 "merged/unmerged; (3) multi-library merges.  distinct = distinct abstract schema (or bundled schema x format x mode); "
@@ -796,10 +880,37 @@ def _run_rest(ctx, pool, rb, rm):
                         hdr=dict(c["hdr"], library=c["hdr"]["library"][:1]))
         items.append({"id": i, "case": c, "conc": concretise(body, ctx.seed * 1000003 + i), "work": ctx.work})
 
+    # ---------------- histories of saves into re-used locations (SchemaFiles.tla)
+    ctx.tlc("MC_SchemaFiles", "MC_SchemaFiles.cfg", workers=8, timeout=900,
+            label="design: LoadSeesLastSave, OtherPlacesUntouched; every history of <= 3 saves, 2 locations x 3 formats x 3 variants")
+    rsk = ctx.tlc("MC_SchemaFiles", "MC_SchemaFiles_skipempty.cfg", workers=4, expect_ok=False, timeout=900,
+                  label="sensitivity: a TSV writer that skips blank tables")
+    if rsk.violated != "LoadSeesLastSave":
+        raise tlc.TLCFailure("sensitivity configuration skipempty should violate LoadSeesLastSave, got %r" % rsk.violated)
+    hists, rows_spec = [], None
+    for cfgname, label in (("MC_SchemaFiles_gen.cfg", "generation: every history of <= 3 TSV saves into one re-used location, 5 variants"),
+                           ("MC_SchemaFiles_gen2.cfg", "generation: <= 3 saves, folder / .tsv-prefix location x {tsv, xml} x {merged, unmerged}")):
+        rh = ctx.tlc("MC_SchemaFiles", cfgname, workers=1, timeout=900, label=label)
+        for j in rh.json_lines:
+            if "rows" in j:
+                rows_spec = rows_spec or j["rows"]
+            else:
+                hists.append(j)
+    real_rows = variant_rows()
+    if rows_spec is None or any(sorted(rows_spec[v]) != real_rows[v] for v in rows_spec):
+        raise tlc.TLCFailure("Rows of MC_SchemaFiles.tla do not describe the bundled variants: %s vs %s" % (rows_spec, real_rows))
+    if quick:
+        rng = random.Random(ctx.seed + 5)
+        short = [h for h in hists if len(h["hist"]) <= 2]
+        long_ = [h for h in hists if len(h["hist"]) > 2]
+        rng.shuffle(long_)
+        hists = short + long_[:150]
+    rhc = pool.map_async(history_case, [(i, h, ctx.work) for i, h in enumerate(hists)], chunksize=4)
+
     t_tlc = time.time() - ctx.t0
     # ---------------- generated cases (same pool as the bundled schemas)
     rgc = pool.map_async(execute, items, chunksize=2)
-    rb, rm, rgc = rb.get(), rm.get(), rgc.get()
+    rb, rm, rgc, rhc = rb.get(), rm.get(), rgc.get(), rhc.get()
     rb.sort(key=lambda o: o["version"])
     ctx.note("phase_wall_s", {"tlc_design_and_generation": round(t_tlc, 1), "replay": round(time.time() - ctx.t0 - t_tlc, 1)})
 
@@ -869,6 +980,15 @@ def _run_rest(ctx, pool, rb, rm):
         ctx.note("multi_library_pairs_not_loadable", notload)
     if nm == 0:
         raise tlc.TLCFailure("no multi-library pair could be loaded offline")
+    # ---- A4 verdicts
+    for idx, prob in rhc:
+        h = hists[idx]
+        ctx.case("history:" + json.dumps(h["hist"]), nontrivial=len(h["hist"]) > 1)
+        ctx.traces += 1
+        ctx.bump("saves_reloaded", len(h["hist"]))
+        for key, text in prob:
+            ctx.violation(key, text, {"kind": "history", "case": h})
+    ctx.note("save_histories_replayed", len(hists))
     # ---- A2 verdicts
     drift = {}
     feats = {}
@@ -926,6 +1046,9 @@ def replay(obj):
                     prob.append(("bundled:xml-file:%s:%s" % (b, modes[int(a) - 1]),
                                  "saved %s XML differs from what the original lists: %s (first difference at %r)" % (modes[int(a) - 1], b, c)))
             return (not prob), "; ".join(t for _, t in prob) or "round trips agree and the saved XML lists what the specification prescribes"
+        if obj["kind"] == "history":
+            _, prob = history_case((0, obj["case"], work))
+            return (not prob), "; ".join(t for _, t in prob) or "every location loads the schema saved there last"
         if obj["kind"] == "multimerge":
             o = multimerge_case((tuple(obj["versions"]), work, "mm"))
             prob = o["problems"]
